@@ -71,6 +71,9 @@ def line_head(rng, t_written, off, p):
         # the everyday form 'YYYY-MM-DD HH:MM:SS.f message': no bracket and no zone after the fraction, so the stamp ends
         # in a variable-length component (a reader that sees only part of it still sees a well-formed, different, stamp)
         return ("%04d-%02d-%02d %02d:%02d:%02d.%s" % (y, mo, d, h, mi, sec, frac)).encode()
+    if p.notation == 8:
+        # seconds since the epoch with a fraction, as `strace -ttt` writes them: a complete instant without a calendar year
+        return ("%d.%s" % (t_written // 1_000_000_000, frac)).encode()
     if p.notation == 7:
         return ("%04d-%02d-%02dT%02d:%02d:%02d.%s%s" % (y, mo, d, h, mi, sec, frac, fmt_offset(off, 2))).encode()
     if p.notation == 4:
@@ -108,7 +111,7 @@ def gen_big_text_log(rng, total_bytes, line_len=(200, 1200), notation=1, t0=9466
     i = 0
     while len(out) < total_bytes:
         t += rng.choice((0, step_ns, step_ns, 3 * step_ns))
-        head = stamp(t, 0, notation, 3) + b" " + letter + tag26(i, 5)
+        head = (stamp(t, 0, notation, 3) if notation <= 3 else line_head(rng, t, 0, TextLogParams(notation=notation, frac_digits=3))) + b" " + letter + tag26(i, 5)
         m = head + b" " + fast_body(rng, rng.randint(*line_len)) + b"\n"
         if rng.random() < 0.1:
             m += b" cont " + fast_body(rng, rng.randint(1, 300)) + b"\n"
@@ -190,7 +193,7 @@ def gen_text_log(rng, p):
             t = p.instants[i]
         elif i > 0:
             t += rng.choice(p.steps)
-        off = rng.choice(offs) if (p.vary_offset and p.notation not in (0, 6)) else p.off_min
+        off = rng.choice(offs) if (p.vary_offset and p.notation not in (0, 6, 8)) else p.off_min
         # the instant a message carries is the one its text denotes: truncate to the written precision
         t_written = t - (t % (10 ** (9 - p.frac_digits)))
         tag = p.src_letter + tag26(i)
